@@ -241,6 +241,9 @@ func (m *moduleEngine) ResolveImportedFunction(index, descFunc, indexInImportedM
 	executableOffset, moduleCtxOffset, typeIDOffset := m.parent.offsets.ImportedFunctionOffset(index)
 	importedME := importedModuleEngine.(*moduleEngine)
 
+	// indexInImportedModule is in the function index space of the imported module (its own imports
+	// first): keep it, as that is what NewFunction and the recursive resolution below expect.
+	funcIndexInImportedModule := indexInImportedModule
 	if int(indexInImportedModule) >= len(importedME.importedFunctions) {
 		indexInImportedModule -= wasm.Index(len(importedME.importedFunctions))
 	} else {
@@ -258,7 +261,7 @@ func (m *moduleEngine) ResolveImportedFunction(index, descFunc, indexInImportedM
 	binary.LittleEndian.PutUint64(m.opaque[typeIDOffset:], uint64(typeID))
 
 	// Write importedFunction so that it can be used by NewFunction.
-	m.importedFunctions[index] = importedFunction{me: importedME, indexInModule: indexInImportedModule}
+	m.importedFunctions[index] = importedFunction{me: importedME, indexInModule: funcIndexInImportedModule}
 }
 
 // ResolveImportedMemory implements wasm.ModuleEngine.
@@ -291,8 +294,18 @@ func (m *moduleEngine) DoneInstantiation() {
 // FunctionInstanceReference implements wasm.ModuleEngine.
 func (m *moduleEngine) FunctionInstanceReference(funcIndex wasm.Index) wasm.Reference {
 	if funcIndex < m.module.Source.ImportFunctionCount {
+		// The function instance in the opaque area has no index: LookupFunction needs the index in
+		// the function index space of the module that defines the function.
 		begin, _, _ := m.parent.offsets.ImportedFunctionOffset(funcIndex)
-		return uintptr(unsafe.Pointer(&m.opaque[begin]))
+		src := (*functionInstance)(unsafe.Pointer(&m.opaque[begin]))
+		lf := &functionInstance{
+			executable:             src.executable,
+			moduleContextOpaquePtr: src.moduleContextOpaquePtr,
+			typeID:                 src.typeID,
+			indexInModule:          m.importedFunctions[funcIndex].indexInModule,
+		}
+		m.localFunctionInstances = append(m.localFunctionInstances, lf)
+		return uintptr(unsafe.Pointer(lf))
 	}
 	localIndex := funcIndex - m.module.Source.ImportFunctionCount
 	p := m.parent
